@@ -141,14 +141,33 @@ def one(ctx, n, fam):
     eval_case(ctx, v, fam)
 
 
+
+def _limit_blas_threads(n_threads=2):
+    """OpenBLAS threading does not speed these small tensor contractions up but occupies every core; cap it (best
+    effort, silently skipped when the bundled library or symbol is not found)."""
+    try:
+        import ctypes
+        import glob
+        import os
+        libdir = os.path.join(os.path.dirname(os.path.dirname(np.__file__)), "numpy.libs")
+        for path in glob.glob(os.path.join(libdir, "*openblas*")):
+            lib = ctypes.CDLL(path)
+            for name in ("scipy_openblas_set_num_threads64_", "openblas_set_num_threads64_",
+                         "scipy_openblas_set_num_threads", "openblas_set_num_threads"):
+                if hasattr(lib, name):
+                    getattr(lib, name)(int(n_threads))
+                    break
+    except Exception:
+        pass
+
+
 def evaluate(ctx, deep):
+    _limit_blas_threads()
     nmax = 7 if deep else 5
     for n in range(1, nmax + 1):
         # all families
-        reps = {1: 6, 2: 6, 3: 5, 4: 4, 5: 3, 6: 3, 7: 2}[n] if deep else {1: 4, 2: 4, 3: 3, 4: 2, 5: 1}[n]
+        reps = {1: 8, 2: 8, 3: 6, 4: 5, 5: 4, 6: 3, 7: 2}[n] if deep else {1: 8, 2: 8, 3: 6, 4: 4, 5: 2}[n]
         for fam in FAMILIES:
-            if n == 1 and fam in ("sparse2",):
-                pass
             for _ in range(reps):
                 one(ctx, n, fam)
         # every basis state with a few exact phases, for small n
@@ -160,7 +179,7 @@ def evaluate(ctx, deep):
                     ctx.count("basis_all", key=(n, k, complex(ph)), nontrivial=True, sample=None)
                     eval_case(ctx, v, "basis_all")
         # modulus-one amplitudes with many random phases: after v/||v|| the computed modulus is 1+1ulp for ~22 % of them
-        nph = {1: 400, 2: 300, 3: 250, 4: 200, 5: 200, 6: 200, 7: 60}[n] if deep else {1: 250, 2: 220, 3: 200, 4: 200, 5: 60}[n]
+        nph = {1: 400, 2: 300, 3: 250, 4: 200, 5: 200, 6: 120, 7: 40}[n] if deep else {1: 250, 2: 220, 3: 200, 4: 200, 5: 60}[n]
         for _ in range(nph):
             one(ctx, n, "basis_phase")
         for _ in range(nph // 4):
